@@ -11,7 +11,8 @@ TRUSTED = T01 + ["pool.imap order and exception propagation (assumed)"]
 
 
 def tasks(tier):
-    return worker_tasks("C04", ["sound"]) + dispatch_tasks("C04")
+    from props.taste_parents import parent_tasks
+    return worker_tasks("C04", ["sound"]) + dispatch_tasks("C04") + parent_tasks("C04")
 
 
 def canaries(tier):
@@ -20,7 +21,7 @@ def canaries(tier):
              [(f, "            if shape[-1] != args['nfields']:", "            if False:")], ["mp_fun_headers.sound[nd=3]"]),
             ("shape worker: box loop stops one box early",
              [(f, "for i, bid in enumerate(args['box_ids'][:-1]):", "for i, bid in enumerate(args['box_ids'][:-2]):")],
-             ["mp_fun_shape.sound[nd=3]"])]
+             ["mp_fun_shape.sound[nd=3]"])] + __import__("props.taste_parents", fromlist=["parent_canaries"]).parent_canaries()
 
 
 SCENARIO_TIMEOUT = 600
